@@ -2,7 +2,7 @@
 from .. import env, histgen, session, wire, refmatch as rm
 from ..runner import Prop, Stage, Result
 
-PROFILE = dict(reuse=0.7, weights=dict(repeat=4, midsession=7, newer=4, nulls=12, delete=16, bind=14, message=46, server_event=10, deep=4, sync=6))
+PROFILE = dict(reuse=0.7, id_bases=[2, 2, 2, 8, 9, 89, 900, 4095], weights=dict(repeat=4, midsession=7, newer=4, nulls=12, delete=16, bind=14, message=46, server_event=10, deep=4, sync=6))
 
 
 def universe(specs, dialect):
